@@ -558,6 +558,189 @@ class Sugar:
         self.expanded.append((bi, "closure-call"))
         return True
 
+    # -------------------------------------------------------------------------------- await
+    def expand_await(self, bi, dep, stack):
+        """`fut.await` is lowered to `loop { match poll(pin(&mut fut), cx) { Ready(v) => break v, Pending =>
+        yield } }`. Sequentially (what the rules reason about) that is `v = fut's result`: the Pending arm
+        is cut, which removes the poll loop; and when the future is the coroutine of a crate-local
+        `async fn` / async block whose construction is visible, its body is inlined in place of the poll
+        call, like a closure call."""
+        b = self.blocks[bi]
+        t = b["term"]
+        if (t.get("def") or "") != "std::future::Future::poll" or len(t["args"]) != 2 or t.get("t") is None or t.get("awaited") is True:
+            return False
+        dest = t["dest"]
+        if dest["p"]:
+            return False
+        if t.get("awaited") != "retry" and not self._cut_pending(bi, t, dest):
+            return False
+        t["awaited"] = True
+        # ---- the awaited coroutine, when its construction is visible
+        cb = self.facts.body(t.get("res") or "")
+        if cb is None or not cb.coroutine or cb.id in stack:
+            return True
+        fut = self._pinned_future(t["args"][0])
+        if fut is None:
+            return True
+        target, captured = self._resolve_coroutine(fut)
+        if target is None or target.id != cb.id:
+            t["awaited"] = "pending-construction"
+            return True
+        B = Builder(self.facts, self.locals, self.blocks, self.origin, t.get("span"))
+        tmp = B.local("?")
+        wrap = B.block([B.assign(dest, B.agg("std::task::Poll", "Ready", 0, [M(tmp)]))], B.goto(t["t"]))
+        entry = self._inline_coroutine(B, cb, captured, fut, t["args"][1], P(tmp), wrap, dep, stack)
+        b["term"] = {"k": "goto", "t": entry, "span": t.get("span"), "sugar_site": t}
+        self.expanded.append((bi, "await-inline"))
+        return True
+
+    def _cut_pending(self, bi, t, dest):
+        sb = self.blocks[t["t"]]
+        st = sb["term"]
+        if not st or st["k"] != "switch":
+            return False
+        spl = operand_place(st["op"])
+        dl = None
+        for s in sb["stmts"]:
+            if s["k"] == "assign" and spl is not None and s["lhs"] == {"l": spl["l"], "p": []} and s["rv"]["k"] == "discr" and s["rv"]["place"] == {"l": dest["l"], "p": []}:
+                dl = s
+        if dl is None or 0 not in st["vals"] or 1 not in st["vals"]:
+            return False
+        ready = st["targets"][st["vals"].index(0)]
+        pending = st["targets"][st["vals"].index(1)]
+        # the Pending arm reaches a `yield` within a few straight blocks
+        chain = []
+        cur = pending
+        for _ in range(6):
+            ct = self.blocks[cur]["term"]
+            chain.append(cur)
+            if not ct:
+                return False
+            if ct["k"] == "yield":
+                break
+            if ct["k"] in ("goto", "drop", "falseedge") and ct.get("t") is not None:
+                cur = ct["t"]
+                continue
+            return False
+        else:
+            return False
+        resume = self.blocks[chain[-1]]["term"].get("t")
+        sb["term"] = {"k": "goto", "t": ready, "span": st.get("span"), "sugar_site": t}
+        for x in chain + ([resume] if resume is not None else []):
+            preds = [i for i, blk in enumerate(self.blocks) if blk["term"] and x in _succs(blk["term"]) and i not in chain]
+            if x == pending or not preds or preds == [chain[-1]] and x == resume:
+                self.blocks[x] = {"stmts": [], "term": {"k": "unreachable", "span": st.get("span")}, "cleanup": self.blocks[x].get("cleanup", False)}
+        self.expanded.append((bi, "await"))
+        return True
+
+    def _pinned_future(self, op, depth=8):
+        """operand of poll's `Pin<&mut F>` argument -> operand naming the future value F"""
+        for _ in range(depth):
+            pl = operand_place(op)
+            if pl is None or any(isinstance(e, dict) for e in pl["p"]):
+                return None
+            ds = defs_of(self.blocks, pl["l"])
+            if len(ds) != 1:
+                return {"c": P(pl["l"])}
+            kind, bi, x = ds[0]
+            if kind == "stmt":
+                rv = x["rv"]
+                if rv["k"] == "ref" and not any(isinstance(e, dict) for e in rv["place"]["p"]):
+                    op = {"c": {"l": rv["place"]["l"], "p": []}}
+                    if not rv["place"]["p"]:
+                        # `&mut fut`: fut is the value
+                        d2 = defs_of(self.blocks, rv["place"]["l"])
+                        if not (len(d2) == 1 and d2[0][0] == "stmt" and d2[0][2]["rv"]["k"] in ("ref",)):
+                            return op
+                    continue
+                if rv["k"] == "use" and operand_place(rv["op"]):
+                    op = rv["op"]
+                    continue
+                return {"c": P(pl["l"])}
+            nm = x.get("def") or ""
+            if re.search(r"Pin::<Ptr>::new_unchecked$|Pin::<Ptr>::new$|Pin::<&'a mut T>::as_mut$|pin::Pin::<Ptr>::as_mut$", nm) and x["args"]:
+                op = x["args"][0]
+                continue
+            return {"c": P(pl["l"])}
+        return None
+
+    def _resolve_coroutine(self, op, depth=10):
+        """(coroutine body, {upvar: operand}) for an operand holding a future built in view: a coroutine
+        aggregate, moved / passed through `into_future`."""
+        for _ in range(depth):
+            pl = operand_place(op)
+            if pl is None or pl["p"]:
+                return None, None
+            ds = defs_of(self.blocks, pl["l"])
+            if len(ds) != 1:
+                return None, None
+            kind, bi, x = ds[0]
+            if kind == "stmt":
+                rv = x["rv"]
+                if rv["k"] == "agg" and rv.get("agg") in ("coroutine", "closure"):
+                    cb = self.facts.body(rv["path"])
+                    if cb is None:
+                        return None, None
+                    return cb, dict(zip(rv.get("fields", []), rv["ops"]))
+                if rv["k"] == "use" and operand_place(rv["op"]):
+                    op = rv["op"]
+                    continue
+                return None, None
+            if (x.get("def") or "") == "std::future::IntoFuture::into_future" and x["args"]:
+                op = x["args"][0]
+                continue
+            return None, None
+        return None, None
+
+    def _inline_coroutine(self, B, cb, captured, fut_op, cx_op, dest_place, cont, dep, stack):
+        off_l = len(self.locals)
+        off_b = len(self.blocks)
+        for l in cb.locals:
+            l2 = dict(l)
+            l2["inl_from"] = cb.id
+            self.locals.append(l2)
+        from .inline import _shift_block
+        pre = []
+        cap_place = {}
+        for name, op in (captured or {}).items():
+            pl = operand_place(op)
+            if pl is None:
+                tl = B.local("?", name)
+                pre.append(B.assign(P(tl), B.use(op)))
+                pl = P(tl)
+            else:
+                # the constructor's parameter may be reassigned by a later inlined call of the same
+                # function: keep the value the coroutine was built with
+                tl = B.local(self.locals[pl["l"]].get("ty") or "?", name)
+                pre.append(B.assign(P(tl), B.use({"c": pl})))
+                pl = P(tl)
+            cap_place[name] = pl
+        env = off_l + 1
+
+        def fp(place):
+            if place["l"] != env:
+                return place
+            p = place["p"]
+            i = 1 if p and p[0] == "deref" else 0
+            if i < len(p) and isinstance(p[i], dict) and str(p[i].get("f", "")).startswith("upvar:"):
+                cp = cap_place.get(p[i]["f"][6:])
+                if cp is not None:
+                    return {"l": cp["l"], "p": list(cp["p"]) + list(p[i + 1:])}
+            return place
+        for ci, cblk in enumerate(cb.blocks):
+            nb = _shift_block(cblk, off_l, off_b)
+            map_block(nb, fp)
+            tt = nb["term"]
+            if tt and tt["k"] == "return" and not nb["cleanup"]:
+                nb["stmts"].append({"k": "assign", "lhs": dest_place, "rv": {"k": "use", "op": M(off_l)}, "span": B.span, "inl_ret": cb.id})
+                nb["term"] = B.goto(cont)
+            nb["closure_of"] = cb.id
+            self.blocks.append(nb)
+            self.origin.append((cb.id, ci))
+            self.work.append((off_b + ci, dep + 1, stack + (cb.id,)))
+        pre.append({"k": "assign", "lhs": P(off_l + 2), "rv": {"k": "use", "op": cx_op}, "span": B.span, "inl_arg": cb.id})
+        return B.block(pre, {"k": "goto", "t": off_b, "span": B.span, "inl_call": cb.id})
+
     # -------------------------------------------------------------------------------- iterator pipelines
     LAZY = {"map": "val", "filter": "ref", "filter_map": "val", "take_while": "ref", "map_while": "val", "inspect": "ref", "skip_while": "ref", "flat_map": "val", "flatten": "val"}
     CONSUMERS = {"find": "ref", "find_map": "val", "any": "val", "all": "val", "for_each": "val", "position": "val", "try_for_each": "val"}
